@@ -91,6 +91,11 @@ def check_isd(isd, doc, src_ids, acc, case, t):
       v("C13.content-model", "region>1body", len(kids))
     if not kids and reg.get_style(SP.ShowBackground) is not styles.ShowBackgroundType.always:
       v("C13.empty-region", "showBackground!=always", str(reg.get_style(SP.ShowBackground)), "empty regions only with showBackground=always")
+    elif kids and reg.get_style(SP.ShowBackground) is not styles.ShowBackgroundType.always and \
+        not any(isinstance(x, (model.Text, model.Br)) for b in kids for x in b.dfs_iterator()):
+      # containers that hold neither text nor a line break are no content either (e.g. a ruby whose base and text collapsed to nothing)
+      v("C13.empty-region", "no-text-or-br,showBackground!=always", [type(x).__name__ for b in kids for x in b.dfs_iterator()],
+        "regions without content only with showBackground=always")
     stack = [(reg, None)]
     while stack:
       e, parent = stack.pop()
@@ -173,6 +178,25 @@ def _src_ids(doc):
   return ids
 
 
+def _probe_region_guard(isd, acc, case, t):
+  """'regions hold at most one body' is kept by the snapshot's own region class: a region of a generated snapshot accepts a
+  body only while it has none (the probe pushes bodies until one is refused; two refusals at most are needed)"""
+  for reg in isd.iter_regions():
+    pushed = 0
+    for _ in range(3):
+      try:
+        reg.push_child(model.Body(isd))
+        pushed += 1
+      except (ValueError, TypeError):
+        break
+    nb = sum(1 for c in reg if isinstance(c, model.Body))
+    acc.count("region-guard-probes")
+    if nb > 1:
+      acc.violation("C13.region.one-body", "region-accepts-a-second-body", {"spec": case["spec"], "times": [t]}, observed=f"{nb} bodies after {pushed} accepted pushes",
+                    expected="at most one body per region")
+      return
+
+
 def check_doc(case, acc):
   spec = case["spec"]
   try:
@@ -195,6 +219,7 @@ def check_doc(case, acc):
     any_content |= check_isd(isd, doc, ids, acc, case, t)
     if case.get("ws"):
       check_ws(spec, isd, acc, t)
+    _probe_region_guard(isd, acc, case, t)          # last: it modifies the snapshot
   if case.get("seq"):
     for t, isd in ISD.generate_isd_sequence(doc):
       check_isd(isd, doc, ids, acc, case, t)
@@ -253,6 +278,40 @@ def check_ws(spec, isd, acc, t):
       v("C13.ws.default.edge", "leading", s, "no default space at the start of a line")
     if s.endswith(" ") and (nxt is None or nxt[0] == "br"):
       v("C13.ws.default.edge", "trailing", s, "no default space at the end of a line")
+  # exact reference for any mixture of preserved and default nodes (XSL-FO white-space-collapse / white-space-treatment /
+  # linefeed-treatment as TTML2 10.2.? maps xml:space), written over the character stream of each line rather than node by node:
+  # default TAB/CR/LF become spaces; a default space is dropped when the character before it (preserved or not) is white space
+  # or the line starts there; a default space is dropped when the line ends after it or a (preserved) linefeed follows
+  want_nodes = []
+  line = []
+
+  def close_line():
+    kept = []
+    for ch, pr, ni in line:
+      if not pr and ch in _WS:
+        ch = " "
+        if not kept or kept[-1][0] in _WS:
+          continue
+      kept.append((ch, pr, ni))
+    final = [(ch, pr, ni) for j, (ch, pr, ni) in enumerate(kept)
+             if not (not pr and ch == " " and (j == len(kept) - 1 or kept[j + 1][0] in "\r\n"))]
+    for ch, pr, ni in final:
+      if want_nodes and want_nodes[-1][0] == "text" and want_nodes[-1][3] == ni:
+        want_nodes[-1][1] += ch
+      else:
+        want_nodes.append(["text", ch, pr, ni])
+    line.clear()
+  for ni, (k, s_, pr) in enumerate(src):
+    if k == "br":
+      close_line()
+      want_nodes.append(["br", None, None, ni])
+    else:
+      line.extend((ch, pr, ni) for ch in s_)
+  close_line()
+  want_flat = [(k, s_, pr) for k, s_, pr, _ni in want_nodes]
+  if want_flat != out:
+    mix = "mixed" if any(pr for k, _, pr in src if k == "text") and any(pr is False for k, _, pr in src if k == "text") else "uniform"
+    v("C13.ws.exact", f"nodes,{mix}", out, want_flat)
   if all(pr is False for k, _, pr in src if k == "text"):
     def lines(items):
       ls, cur = [], ""
@@ -332,7 +391,7 @@ def fam_empty_region():
 def fam_ws_ruby():
   """white-space collapsing inside ruby containers: text that collapses to nothing below rb / rt"""
   alpha = ["a", " ", " a", "a ", "\n"]
-  prod = Product([["x ", "x", " "], alpha, alpha, alpha, [0, 1, 2, 3]])
+  prod = Product([["x ", "x", " ", None], alpha, alpha, alpha, [0, 1, 2, 3]])
 
   def dec(i):
     lead, t1, t2, t3, pat = prod.decode(i)
@@ -349,6 +408,11 @@ def fam_ws_ruby():
     else:
       kids = [node("rbc", [node("rb", rbk, id="rb")], id="rbc"), node("rtc", [node("rt", rtk, id="rt")], id="rtc"),
               node("rtc", [node("rt", [sp("t2", "z")], id="rt2")], id="rtc2")]
+    if lead is None:
+      # the ruby container is all there is, in a region that is shown only while it has content
+      p = node("p", [node("ruby", kids, id="ruby")], id="p")
+      reg = {"id": "r1", "st": {"ShowBackground": ["E", "ShowBackgroundType", "whenActive"]}}
+      return {"spec": doc_spec(node("body", [node("div", [p], id="d")], id="b", r="r1"), [reg]), "times": [F(0)], "key": f"F-ws-ruby#{i}"}
     p = node("p", [sp("s0", lead), node("ruby", kids, id="ruby"), sp("s9", " y")], id="p")
     return {"spec": doc_spec(node("body", [node("div", [p], id="d")], id="b"), []), "times": [F(0)], "key": f"F-ws-ruby#{i}"}
   return Family("F-ws-ruby", prod.n, dec, check_doc, timeout=30, note="white space that collapses to nothing inside ruby base / text")
